@@ -527,7 +527,7 @@ ASSUMPTIONS = {
     'C02': ['components whose eigenvalue is below what inexact deflation of earlier components can leave behind are skipped (counted)', 'angle tolerance eps_k = 10(k+1)sqrt(n*1e-10)/((1-rho)/2), rho the largest eigenvalue ratio among the requested components (Jacobi oracle)'],
     'C09': ['same tolerance derivation as C02; components below deflation noise are skipped (counted)'],
     'C17': ['max-min and farthest-from-centroid checks are skipped (counted) when the top two candidates tie to 1e-9 relative', 'the nearest-centroid check uses the documented stop rule slack 2*sqrt(cols)*1e-3 and is skipped when the number of labelling sweeps may have reached the cap of 100', 'cosine "distance" is the quantity metricspace.c computes (a similarity); the oracle uses the same definition'],
-    'C14': ['leaks are not violations', 'UBSan nonnull-attribute (qsort(NULL,0), memcpy(NULL,..,0)) is disabled: no memory is touched', 'NewStrVector(n>0) and NewDVectorList(n>0) are not generated (their elements are documented as to-be-filled by the caller)', 'TensorAppendRow is not generated (its own check contradicts its name)'],
+    'C14': ['leaks are not violations', 'UBSan nonnull-attribute (qsort(NULL,0), memcpy(NULL,..,0)) is disabled: no memory is touched', 'UBSan float-cast-overflow is disabled: (size_t)(-1.0) on fold-matrix padding is SIZE_MAX on this platform and touches no memory', 'NewStrVector(n>0) and NewDVectorList(n>0) are not generated (their elements are documented as to-be-filled by the caller)', 'TensorAppendRow is not generated (its own check contradicts its name)'],
     'C18': ['a call that uses more than 20000 times the steps of a regular call of the same shape is declared non-terminating (largest ratio observed for terminating calls is reported under counters max.steps_ratio_to_regular.*)', 'numerical rank is decided by a long-double elimination with a clear pivot gap; ambiguous cases skip the rank-dependent checks'],
     'C16': ['durability across power loss is not asserted (the property does not quantify over crash points)', 'a path whose last write was faulted is indeterminate until the next clean write and is not read', 'failed opens of the database file itself are not injected (the library does not survive them; not a C16 matter)'],
     'C06': ['for fork-join code a race-free execution on an input implies schedule independence on that input (Feng-Leiserson); unknown synchronisation primitives downgrade race reports'],
